@@ -53,11 +53,13 @@ def profile(draw, n_min=2, n_max=5, max_ballots=60):
     # auditable ballots beyond the supplied records (the 'informal' count of a .raire header / a card upper bound)
     extra = draw(st.sampled_from([0, 0, 0, 1, 3, 10, 40]))
     return {"cands": cands, "ballots": ballots, "winner": winner, "order_hint": order,
-            "asn": draw(st.sampled_from(["bp_estimate", "cp_estimate"])), "tot_extra": extra}
+            "asn": draw(st.sampled_from(["bp_estimate", "cp_estimate"])), "tot_extra": extra,
+            "contest_name": draw(st.sampled_from(["c", "c", "339", 1]))}
 
 
-def raire_cvrs(prof, contest="c"):
+def raire_cvrs(prof, contest=None):
     """the generator-side CVR dict: {ballot id: {contest: {cand: 0-based rank}}}"""
+    contest = prof.get("contest_name", "c") if contest is None else contest
     cvrs = {}
     for i, b in enumerate(prof["ballots"]):
         cvrs[str(i)] = {} if b is None else {contest: {c: j for j, c in enumerate(b)}}
